@@ -249,6 +249,49 @@ def captured_logs(ctx, n_runs):
     return [l for l in logs if l]
 
 
+def needle(ctx):
+    """extreme skew: thousands of candidates of weight 0 (or of weight that left the set again) around a few live ones, so
+    that a rejection round succeeds with probability ~1e-3 or less.  Under weight-proportional selection a candidate of
+    weight 0 has probability exactly 0, so any such pick is a certain violation (no statistics involved); the live
+    ones must all be reachable.  Real pseudo-random draws from a seeded generator (the law enumeration cannot reach
+    thousands of rejection rounds)."""
+    import random as _r, EoN.simulation as sim
+    for k in range(ctx.scale(3, 20)):
+        K = ctx.rng.choice([2500, 6000])
+        m = ctx.rng.randint(1, 4)
+        live = {("live", i): float(ctx.rng.choice([F(1, 4), F(1, 2), F(1), F(3, 2), F(2)])) for i in range(m)}
+        seed = ctx.rng.randrange(10 ** 9)
+        rep = dict(entry="_ListDict_", stream="needle", zero_weight_items=K, live=[[list(k_), w] for k_, w in live.items()], seed=seed)
+        ld = sim._ListDict_(weighted=True)
+        order = [("dead", i) for i in range(K)] + list(live)
+        ctx.rng.shuffle(order)
+        for it in order:
+            if it in live:
+                ld.insert(it, weight=live[it])
+            else:
+                ld.update(it, weight_increment=0)           # present with weight 0 (what a zero rate / weight label gives)
+        old = sim.random
+        sim.random = _r.Random(seed)
+        picks = {}
+        try:
+            for _ in range(150):
+                c = ld.choose_random()
+                picks[c] = picks.get(c, 0) + 1
+        except Exception as e:
+            ctx.violation("choose_random raised %s on a set with %d zero-weight candidates" % (type(e).__name__, K), rep)
+            continue
+        finally:
+            sim.random = old
+        ctx.count("needle")
+        ctx.case(rep, nontrivial=True)
+        dead = sum(n for c, n in picks.items() if c not in live)
+        if dead:
+            ctx.violation("choose_random returned a candidate of weight 0 (%d of 150 picks; live candidates %s)" % (dead, sorted(live.values())),
+                          dict(rep, dead_picks=dead))
+        elif abs(ld.total_weight() - sum(live.values())) > 1e-9:
+            ctx.violation("total_weight() differs from the sum of the weights", dict(rep, total=ld.total_weight()))
+
+
 def run(ctx):
     drv = common.LeanDriver()
     reqs, impl_outs, metas = [], [], []
@@ -298,6 +341,7 @@ def run(ctx):
                                                      impl=outs[i] if i < len(outs) else None,
                                                      model=mouts[i] if i < len(mouts) else None))
     generated_model(ctx, reqs, impl_outs, metas)
+    needle(ctx)
 
 
 def generated_model(ctx, reqs, impl_outs, metas):
